@@ -5,6 +5,7 @@ import (
 	"go/constant"
 	"go/token"
 	"go/types"
+	"sort"
 	"strings"
 
 	"dtnverif/core"
@@ -241,6 +242,7 @@ func C07(p *core.Program, r *core.Report) {
 
 	checkAgentsAlwaysDrain(p, r)
 	checkMuxChildrenGuarded(p, r)
+	checkListingMatchesDelivery(p, r)
 	checkLoopVarCapture(p, r)
 	// epidemic routing admits a bundle for a local endpoint to dispatching (and so to local delivery) by the
 	// destination it recorded in the store item when the bundle was announced: that record must be written back
@@ -605,4 +607,57 @@ func checkMuxChildrenGuarded(p *core.Program, r *core.Report) {
 	n := g.checkGuarded(r, []guardedField{{agentPkg, "MuxAgent", "children", "pkg/agent.MuxAgent.Mutex"}}, true)
 	r.Count("accesses to MuxAgent.children", n)
 	r.Min("accesses to MuxAgent.children", 5)
+}
+
+// checkListingMatchesDelivery: an agent's Endpoints() decides whether the node
+// takes a bundle for local delivery at all (Core.HasEndpoint, MuxAgent.handle);
+// its receive function decides which clients get it. Both must read the same
+// registry: an endpoint set kept beside the client table (a cache without
+// reference counts) drops an endpoint for every client registered under it
+// when one of them leaves. Decided for the REST agent and the WebSocket
+// agent's clients: the registry field ranged over / read in Endpoints() is the
+// one the delivery function ranges over / reads.
+func checkListingMatchesDelivery(p *core.Program, r *core.Report) {
+	regFields := func(fn *ssa.Function) map[string]bool {
+		out := map[string]bool{}
+		core.EachInstrDeep(fn, func(_ *ssa.Function, in ssa.Instruction) {
+			c, ok := in.(ssa.CallInstruction)
+			if !ok {
+				return
+			}
+			n := core.CalleeName(c)
+			if n != "sync.Map.Range" && n != "sync.Map.Load" {
+				return
+			}
+			if _, field, ok := core.FieldOwner(core.CallRecv(c)); ok {
+				out[field] = true
+			}
+		})
+		return out
+	}
+	ep := p.Func(agentPkg, "RestAgent", "Endpoints")
+	rb := p.Func(agentPkg, "RestAgent", "receiveBundleMessage")
+	le, ld := regFields(ep), regFields(rb)
+	shared := false
+	for f := range le {
+		if ld[f] {
+			shared = true
+		}
+	}
+	onlyShared := true
+	for f := range le {
+		if !ld[f] {
+			onlyShared = false
+		}
+	}
+	r.Check(shared && onlyShared, "listing-matches-delivery/"+fname(ep), "RestAgent.Endpoints() lists endpoints from the very client registry that receiveBundleMessage selects recipients from (no separate endpoint cache: one client leaving must not hide the endpoint of another client registered under it)", p.Pos(ep.Pos()), "", fmt.Sprintf("Endpoints() reads %v, delivery reads %v", keysOf(le), keysOf(ld)))
+}
+
+func keysOf(m map[string]bool) []string {
+	var out []string
+	for k := range m {
+		out = append(out, k)
+	}
+	sort.Strings(out)
+	return out
 }
